@@ -14,7 +14,7 @@ from vp.flo.engine import all_events
 
 PROPERTY = "C10"
 LEVEL = "exploration"
-PROFILE = {"driver": True, "aux_owner": "taskable", "aux_place": "first", "taskables": (1, 2), "scheds": ["active"],
+PROFILE = {"driver_cmp": True, "driver": True, "aux_owner": "taskable", "aux_place": "first", "taskables": (1, 2), "scheds": ["active"],
            "let_in_aux": False, "aux_completes": True, "aux_policy": "clean", "aux_modes": ["cond"], "auxes": (1, 3),
            "frames": (2, 4), "depth": 3, "slaves": (0, 0), "ticks": (6, 16),
            "kinds": {"data": 3, "go": 6, "let": 0, "timeout": 1, "repeat": 1, "aux": 0, "auxif": 3, "bid": 1, "done": 3, "fiat": 0},
@@ -67,7 +67,7 @@ def classes(prog, r):
     return out
 
 
-CHECK = ProfileCheck(PROFILE, ["c10", "c05", "c06"], nontrivial, classes)
+CHECK = ProfileCheck(PROFILE, ["c10", "c05", "c06"], nontrivial, classes, directed=__import__("vp.flo.gen", fromlist=["x"]).suspend_scenario, directed_share=2)
 RULE = ("Hypothesis-generated programs with conditional auxiliaries at several depths, toggling conditions, auxes completing immediately / later / never; "
         "history invariants on activation, suspension, completion and exit + C05/C06 invariants + reference differential. non-trivial = a "
         "conditional aux suspends for >= 2 consecutive runs and then completes; distinct = distinct program AST")
